@@ -95,6 +95,15 @@ def run(ctx):
                             problems.append(f"image produced with box_size {cur['box']}")
                     if k[0] == "img" and cur["box"] <= 0 and o != "e:ValueError":
                         problems.append(f"make_image with box_size {cur['box']} gave {o}, expected ValueError")
+            # the settings actually held by the implementation object at the end (not only the accepted assignments)
+            try:
+                fin_v, fin_m, fin_b = int(st[1]), st[3], int(st[4])
+                last = res[-1] if res else ""
+                if last and last[0] in "mit" and not last.startswith("e:"):
+                    if fin_b < 0 or not (0 <= fin_v <= 40) or (fin_m != "-" and not (0 <= int(fin_m) <= 7)):
+                        problems.append(f"output produced while the object holds version={fin_v} mask={fin_m} border={fin_b}")
+            except Exception:
+                pass
         R.oracle("P3 " + key, not problems, dict(input=key, history=dict(ctor=list(ctor), ops=ops), expected="rejection of out-of-range / acceptance of in-range settings",
                                                  observed="; ".join(problems)), tag="P3:grid", sample=key[:80])
     # big integers and non-integers (P3 only: the value after int() decides; non-int masks are TypeError)
